@@ -9,6 +9,7 @@ import (
 	"math/rand/v2"
 	"strings"
 	"unicode"
+	"unicode/utf8"
 
 	"ariga.io/atlas/sql/migrate"
 	"ariga.io/atlas/sql/mysql"
@@ -227,83 +228,94 @@ func (g *gen) mutate(s string) string {
 }
 
 // ---- gap lexer ----
+
+// gapOK decides whether a gap (text between two returned statements) can be decomposed completely
+// into whitespace, comments ("--", "#" for MySQL, "/* */"), occurrences of the delimiter in force and
+// DELIMITER commands (which change the delimiter in force). A delimiter may overlap the start of a
+// comment (e.g. a delimiter "\n\n#" or "-- end"), so the decision is a search over all
+// decompositions, not a greedy scan: the property only asks that SOME reading of the gap contains no
+// SQL text. cur is updated to the delimiter in force after the gap (of the successful decomposition).
 func gapOK(gap string, cur *[]string, hash bool) (bool, string) {
-	delims := *cur
-	for len(gap) > 0 {
-		dm := false
-		for _, d := range delims {
-			if d != "" && strings.HasPrefix(gap, d) {
-				gap = gap[len(d):]
-				dm = true
-				break
+	type st struct {
+		pos   int
+		delim string
+	}
+	dead := map[st]bool{}
+	farthest := 0
+	var final string
+	var rec func(pos int, delim string) bool
+	rec = func(pos int, delim string) bool {
+		if pos > farthest {
+			farthest = pos
+		}
+		if pos >= len(gap) {
+			final = delim
+			return true
+		}
+		k := st{pos, delim}
+		if dead[k] {
+			return false
+		}
+		rest := gap[pos:]
+		// the delimiter in force
+		if delim != "" && strings.HasPrefix(rest, delim) && rec(pos+len(delim), delim) {
+			return true
+		}
+		// whitespace (any Unicode space)
+		if r, sz := utf8.DecodeRuneInString(rest); unicode.IsSpace(r) && rec(pos+sz, delim) {
+			return true
+		}
+		// line comments
+		if strings.HasPrefix(rest, "--") || hash && rest[0] == '#' {
+			j := strings.IndexByte(rest, '\n')
+			if j < 0 {
+				final = delim
+				return true
+			}
+			if rec(pos+j+1, delim) {
+				return true
 			}
 		}
-		if dm {
-			continue
-		}
-		switch {
-		case unicode.IsSpace(rune(gap[0])) || gap[0] == '\u0085' || gap[0] == ' ':
-			gap = gap[1:]
-			continue
-		case strings.HasPrefix(gap, "--"):
-			i := strings.IndexByte(gap, '\n')
-			if i < 0 {
-				return true, ""
+		// block comment: ends at the first "*/" after its two opening characters
+		if strings.HasPrefix(rest, "/*") {
+			if j := strings.Index(rest[2:], "*/"); j >= 0 && rec(pos+2+j+2, delim) {
+				return true
 			}
-			gap = gap[i+1:]
-			continue
-		case hash && gap[0] == '#':
-			i := strings.IndexByte(gap, '\n')
-			if i < 0 {
-				return true, ""
-			}
-			gap = gap[i+1:]
-			continue
-		case strings.HasPrefix(gap, "/*"):
-			i := strings.Index(gap[2:], "*/")
-			if i < 0 {
-				return false, "unterminated block comment in gap"
-			}
-			gap = gap[2+i+2:]
-			continue
 		}
-		// unicode spaces
-		r := []rune(gap)[0]
-		if unicode.IsSpace(r) {
-			gap = gap[len(string(r)):]
-			continue
-		}
-		if len(gap) > 10 && strings.EqualFold(gap[:10], "delimiter ") {
-			i := strings.IndexByte(gap, '\n')
-			line := gap
-			if i >= 0 {
-				line = gap[:i]
+		// DELIMITER command
+		if len(rest) > 10 && strings.EqualFold(rest[:10], "delimiter ") {
+			j := strings.IndexByte(rest, '\n')
+			line := rest
+			if j >= 0 {
+				line = rest[:j]
 			}
 			d := strings.TrimSpace(line[10:])
-			if strings.HasPrefix(d, "'") && strings.HasSuffix(d, "'") && len(d) >= 2 {
+			if len(d) > 1 && strings.HasPrefix(d, "'") && strings.HasSuffix(d, "'") {
 				d = strings.ReplaceAll(d[1:len(d)-1], "''", "'")
 			}
-			*cur = []string{strings.NewReplacer(`\n`, "\n", `\r`, "\r", `\t`, "\t").Replace(d)}
-			delims = *cur
-			if i < 0 {
-				return true, ""
+			d = strings.NewReplacer(`\n`, "\n", `\r`, "\r", `\t`, "\t").Replace(d)
+			if j < 0 {
+				final = d
+				return true
 			}
-			gap = gap[i:]
-			continue
-		}
-		matched := false
-		for _, d := range delims {
-			if d != "" && strings.HasPrefix(gap, d) {
-				gap = gap[len(d):]
-				matched = true
-				break
+			if rec(pos+j, d) {
+				return true
 			}
 		}
-		if matched {
-			continue
-		}
-		return false, fmt.Sprintf("unexpected %q", gap)
+		dead[k] = true
+		return false
 	}
-	return true, ""
+	d0 := ""
+	if len(*cur) > 0 {
+		d0 = (*cur)[0]
+	}
+	if rec(0, d0) {
+		*cur = []string{final}
+		return true, ""
+	}
+	end := farthest + 30
+	if end > len(gap) {
+		end = len(gap)
+	}
+	return false, fmt.Sprintf("unexpected %q", gap[farthest:end])
 }
-
